@@ -17,6 +17,7 @@ function of output `o` with symbol `g` is the term constructor `g(arg,…)`.
     set <k> nd | one <v> | many <v>…
     run <completed body indices>   → res / outputs / children / wiring   (runq: res / outputs)
     rrun <completed…>              as run, but the node itself is shipped to a by-value executor and merged back
+    tamper                         a body copy and its collectors were edited and run by hand (silent)
     reload                         pickle round trip at rest → rl / outputs / children
     snaprun <completed…>           as run; then the state becomes the copy restored from a pickle taken while the
                                    bodies of THIS run were out → snap ok / outputs / children   |  snap none
@@ -198,6 +199,8 @@ def step (d : DSt) (ws : List String) : DSt × List String :=
        let (st, r) := runByValue d.spec d.st d.cur order
        ({ d with st }, [showRes r, showOuts st.outs, showChildren st.children] ++ showWire d.spec st))
   | "snaprun" :: ord => doSnapRun d ord
+  | ["tamper"] =>      -- hand edit of the sub-graph (what it leaves in the outputs is not compared)
+    if !d.begun then (d, ["bad-op"]) else ({ d with st := tamper d.st d.st.outs }, [])
   | ["reload"] =>
     if !d.begun then (d, ["bad-op"]) else
     let st := reload d.st
